@@ -88,10 +88,22 @@ pub fn scalar_c01(rng: &mut Rng, n: usize) -> (Vec<f64>, DataMeta) {
     reorder(rng, &mut v, order);
     for x in v.iter_mut() {
         if x.abs() < 1e-30 {
-            *x = 0.0;
+            // keep the sign: -0.0 is a legal observation (|x| = 0)
+            *x = 0.0f64.copysign(*x);
         }
         if x.abs() > 1e30 {
             *x = 1e30f64.copysign(*x);
+        }
+    }
+    if rng.chance(0.05) {
+        // both signs of zero
+        for x in v.iter_mut() {
+            if *x == 0.0 && rng.chance(0.5) {
+                *x = -0.0;
+            }
+        }
+        if !v.is_empty() && rng.chance(0.5) {
+            v[0] = -0.0;
         }
     }
     (v, DataMeta { family: fam, spread, offset, order })
